@@ -288,3 +288,27 @@ Example ex_expiry_interval :
   X.tm_interval (X.x_timer (fst (X.xrun (X.xinit 300) [X.XAdd 1 (X.mkTv 10 0); X.XIter (X.mkTv 10 0) (X.mkTv 10 0) (X.mkTv 10 0); X.XIter (X.mkTv 10 0) (X.mkTv 10 0) (X.mkTv 10 0); X.XAdd 2 (X.mkTv 10 150000);
                             X.XIter (X.mkTv 10 150000) (X.mkTv 10 300000) (X.mkTv 10 300000)]))) = 150.
 Proof. vm_compute. reflexivity. Qed.
+
+(* ================================================================================================
+   Callee hung up (transport saw EOF, dbus_connection_get_is_connected is FALSE) but its Disconnected message is not processed
+   yet: it is still registered and calls are still routed to it (event EHangup). *)
+Local Open Scope N_scope.
+Theorem C09_hangup_changes_nothing : forall cf st c,
+  let st' := fst (step cf st (EHangup c)) in
+  snd (step cf st (EHangup c)) = [] /\ st_pend st' = st_pend st /\ st_names st' = st_names st /\ st_conns st' = st_conns st /\
+  st_held st' = st_held st /\ st_full st' = st_full st /\ forall d, resolve st' d = resolve st d.
+Proof. exact hangup_changes_nothing. Qed.
+Print Assumptions C09_hangup_changes_nothing.
+
+(* a call routed to such a connection records its slot; when the disconnect is processed the caller gets exactly one NoReply *)
+Theorem C09_call_to_hung_up_callee : forall cf h a b m,
+  plain (h ++ [EHangup b; ESend a m]) = true -> a <> b -> is_call m = true -> m_noreply m = false ->
+  fwd_to (snd (step cf (state_of cf (h ++ [EHangup b])) (ESend a m))) b = true ->
+  count_noreply (snd (step cf (state_of cf (h ++ [EHangup b; ESend a m])) (EDisconnect b))) a (m_serial m) = 1%nat.
+Proof. exact call_to_hung_up_callee. Qed.
+Print Assumptions C09_call_to_hung_up_callee.
+
+Example ex_hung_up_callee :
+  snd (run cfg_r init [EConnect false; EConnect false; EHangup 1; ESend 0 call_plain; EDisconnect 1] [])
+  = [(EDisconnect 1, [(0, OErr ENoReply 7)]); (ESend 0 call_plain, [(1, OFwd 0 call_plain)]); (EHangup 1, []); (EConnect false, []); (EConnect false, [])].
+Proof. vm_compute. reflexivity. Qed.
